@@ -503,8 +503,13 @@ def start_crosscheck(tier, runs):
     seed = rng.base_seed()
     ncases = len(c16_crosscheck.CASES)
     count = 6 if tier == "quick" else ncases
-    picks = [(seed * 7 + 5 * j) % ncases for j in range(count)]
-    picks = sorted(set(picks))
+    # always one dense, one potential (few evaluation points) and one sparse case; the rest rotate with the seed
+    picks = [0, 5, 4] + [(seed * 7 + 5 * j + 1) % ncases for j in range(ncases)]
+    uniq = []
+    for x in picks:
+        if x not in uniq:
+            uniq.append(x)
+    picks = sorted(uniq[:count])
     script = os.path.join(env.VERIF_ROOT, "checks", "c16_crosscheck.py")
     procs = []
     envv = dict(os.environ)
